@@ -138,7 +138,7 @@ def run(ctx: Ctx):
                        "same binary, so rows are compared exactly (text equality)"]
     for be in BACKENDS:
         cxx.std_model(be)
-    total = ctx.n(144, 3200)
+    total = ctx.n(256, 3200)
     shards = 16
     payloads = [(derive_seed(ctx.seed, "C05", i), max(1, total // shards), ctx.deadline, BACKENDS[i % 3]) for i in range(shards)]
     for st_ in run_shards("vf.props.C05", "worker", payloads):
